@@ -40,6 +40,8 @@ LAYOUTS = [
     dict(shapes=[[4, 3], [3]], max_dim=1024, merge=False, extra={"precond": ["soap", {"ignored": [0]}]}),
     dict(shapes=[[4, 3], [3]], max_dim=2, merge=False, extra={"precond": ["soap", {}], "freq": 2}),
     dict(shapes=[[4, 3], [3]], max_dim=3, merge=True, extra={"freq": 3}),
+    # two parameter groups with the same options (weights / biases): each group has its own step counter
+    dict(shapes=[[4, 3], [3]], max_dim=2, merge=True, extra={"groups": [{"params": [0], "over": {}}, {"params": [1], "over": {}}]}),
 ]
 
 
@@ -135,7 +137,7 @@ def check(tg, lay, start, pdtype, hist, seed, zero_at=None, lr_sched=False):
     start = cfg["start"]
     params, opt = seq.build(cfg)
     tparams = [torch.nn.Parameter(p.detach().clone()) for p in params]
-    twin = make_twin(tg, tparams)
+    twin = make_twin(tg, [{"params": [tparams[i] for i in g["params"]]} for g in cfg["groups"]] if cfg.get("groups") else tparams)
     norm_part = tg.get("wd", 0.0) == 0.0 and tg.get("momentum", 0.0) == 0.0
     if norm_part:
         cfg0 = shampoo_cfg(tg, lay, start, pdtype, seed, with_graft=False)
@@ -243,7 +245,9 @@ def run_unit(unit):
     lay = unit["layout"]
     for tg in unit["targets"]:
         adam = tg["t"] in ("adam", "adamw")
-        masks = [[1, 1], [0, 0]] if adam else seq.all_masks(2)
+        # several groups: only steps in which all groups (or none) have gradients, so that every group's counter equals the
+        # number of non-empty steps the comparison is indexed by
+        masks = [[1, 1], [0, 0]] if (adam or lay.get("extra", {}).get("groups")) else seq.all_masks(2)
         for start in unit["warmups"]:
             eff = shampoo_cfg(tg, lay, start, "f64", 0)["start"]
             if eff != start and start != unit["warmups"][0]:
